@@ -525,7 +525,7 @@ def run_ciq_cases(ctx, quick):
 
 def replay(rp):
     torch.set_num_threads(1)
-    c = rp.get("case", {})
+    c = rp.get("case") or (rp.get("replay") or {}).get("case") or {}
     spec = c.get("spec")
     if spec and c.get("check") == "ciq":
         fl_, _, _ = run_ciq_one(spec)
